@@ -614,6 +614,12 @@ def call_graph(prog: Program, registry_targets=None):
                         r = prog.resolve_func_name(fi.module, a.id, fi)
                         if r.kind == "repo" and not _is_param(fi, a.id):
                             out.add(r.func)
+                        elif not _is_param(fi, a.id):
+                            # a class of this module handed to a library (json.dumps(..., cls=NodeEncoder)): the library may call
+                            # any of its methods
+                            for q, mf in fi.module.funcs.items():
+                                if q.startswith(a.id + ".") and q.count(".") == 1:
+                                    out.add(mf)
             elif isinstance(n, (ast.FunctionDef, ast.Lambda)):
                 # nested definitions are reachable from their owner (conservative)
                 nf = fi.module.func_of_node(n)
